@@ -23,7 +23,8 @@
       LOk vs        the commands are exactly the completed elements vs
       LPartial vs   the commands end inside an element; vs are the completed elements before it
       LErr e        some command does not fit the Form at its position (e = EValue); no later snapshot may return a
-                    value without an error having been raised.  (e = EFuel never happens, see LBProofs.many_fuel.)
+                    value without an error having been raised.  (e = EFuel: out of fuel; the fuel is the number of commands and every element
+                    consumes at least one, not proved.)
       LUnspec       the session leaves the specified fragment, i.e. it reaches a point where the C++ does not check
                     the command (or is not usable at all); nothing is claimed from that command on.
 
@@ -36,7 +37,7 @@
         a list must begin (no byte, hence no command, reaches the machine), a `bytestring` on a string form and vice versa (the encoding is not looked at),
         begin_list on a string form (building a string by hand);
       * `index` on an IndexedForm (the "categorical" feature: chooses the index by hand);
-      * anything on an EmptyForm below a list (its word is a comment; `null`/`tag` are taken as list items);
+      * an EmptyForm below any other node (its word is a comment; `null`/`tag` are taken as list items): [cons_in];
       * ListForm (the constructor always raises: its Forth source has a typo: s-quote without the following blank), RecordForm without
         fields (the generated source is cut in the wrong place), RegularForm of size <= 0 (elements that consume no
         command), keys and contents of different lengths, strings whose content is not a uint8 leaf: [constructible];
@@ -233,21 +234,23 @@ Fixpoint lb_item (f : lform) (cmds : list lbcmd) {struct f} : pres value :=
   end.
 
 (* ------------------------------------------------------------------ forms the builder can be made from / used with *)
-Fixpoint constructible (f : lform) : bool :=
+Fixpoint cons_in (f : lform) : bool :=
   match f with
   | LNumpy _ => true
-  | LEmpty => true
-  | LListOffset _ None c => constructible c
+  | LEmpty => false           (* below another node its Forth word is a comment: nothing is checked *)
+  | LListOffset _ None c => cons_in c
   | LListOffset _ (Some _) c => match c with LNumpy DUInt8 => true | _ => false end
   | LList _ _ => false
-  | LRegular n c => (1 <=? n) && constructible c
-  | LIndexed _ c | LUnmasked c | LByteMasked _ c | LBitMasked _ _ c => constructible c
-  | LIndexedOption w c => match w with U32 => false | _ => constructible c end
-  | LUnion _ cs => negb (match cs with [] => true | _ => false end) && forallb constructible cs
+  | LRegular n c => (1 <=? n) && cons_in c
+  | LIndexed _ c | LUnmasked c | LByteMasked _ c | LBitMasked _ _ c => cons_in c
+  | LIndexedOption w c => match w with U32 => false | _ => cons_in c end
+  | LUnion _ cs => negb (match cs with [] => true | _ => false end) && forallb cons_in cs
   | LRecord keys cs =>
-      negb (match cs with [] => true | _ => false end) && forallb constructible cs &&
+      negb (match cs with [] => true | _ => false end) && forallb cons_in cs &&
       match keys with Some ks => Nat.eqb (length ks) (length cs) | None => true end
   end.
+Definition constructible (f : lform) : bool :=
+  match f with LEmpty => true | _ => cons_in f end.
 
 (* ------------------------------------------------------------------ the session *)
 Fixpoint top (p : list lbcmd -> pres value) (fuel : nat) (cmds : list lbcmd) : lbres :=
@@ -360,10 +363,6 @@ Fixpoint enc (f : lform) (v : value) {struct f} : list lbcmd :=
          end) cs vs
   end.
 
-Definition conforms (f : lform) (vs : list value) : Prop :=
-  constructible f = true /\ forallb (conf f) vs = true.
-Definition lb_encode (f : lform) (vs : list value) : list lbcmd := flat_map (enc f) vs.
-
 (* the commands an element of form f may start with (for a form in the specified fragment) *)
 Fixpoint first_ok (f : lform) (c : lbcmd) {struct f} : bool :=
   match f with
@@ -381,3 +380,19 @@ Fixpoint first_ok (f : lform) (c : lbcmd) {struct f} : bool :=
   | LUnion _ _ => match c with KTag _ => true | _ => false end
   | LRecord _ cs => match cs with f0 :: _ => first_ok f0 c | [] => false end
   end.
+
+(* `null` is decided by the OUTERMOST option node that can take it: below an option node no element may begin with
+   null (otherwise the encoding of e.g. a record whose first field is None would be read back as a missing record;
+   the C++ behaves the same way: the Forth word of IndexedOptionForm tests for `null` first) *)
+Fixpoint unambiguous (f : lform) : bool :=
+  match f with
+  | LNumpy _ | LEmpty => true
+  | LListOffset _ _ c | LList _ c | LRegular _ c | LIndexed _ c | LUnmasked c => unambiguous c
+  | LIndexedOption _ c | LByteMasked _ c | LBitMasked _ _ c => negb (first_ok c KNull) && unambiguous c
+  | LUnion _ cs | LRecord _ cs => forallb unambiguous cs
+  end.
+
+Definition conforms (f : lform) (vs : list value) : Prop :=
+  constructible f = true /\ unambiguous f = true /\ forallb (conf f) vs = true.
+Definition lb_encode (f : lform) (vs : list value) : list lbcmd := flat_map (enc f) vs.
+
